@@ -244,6 +244,51 @@ def _sequences(acc, P, _parser, w, st):
                         {'scope_types': st, 'first': first, 'second': second,
                          'how': how}, want, r, 'sequence')
                 acc.outcome('rescoped-%s' % (want[1],))
+    # (d) TWO check objects parsed from the same text are alive at once: one
+    # is given this job's scope types, the other different ones or none at
+    # all (never assigned); each call is gated by the types of the object it
+    # was handed
+    def outcome(enf, rule, creds):
+        try:
+            return 'allow' if enf.enforce(rule, {}, creds, do_raise=True) \
+                else 'deny'
+        except P.InvalidScope:
+            return 'scope'
+        except P.PolicyNotAuthorized:
+            return 'deny'
+        except Exception as e:
+            return type(e).__name__
+    for text in ('@', '', '!', 'role:r'):
+        for st2 in all_scope_types() + ['untouched']:
+            enf = P.Enforcer(conf, use_conf=False)
+            a = _parser.parse_rule(text)
+            b = _parser.parse_rule(text)
+            a.scope_types = list(st) if st else None
+            if st2 != 'untouched':
+                b.scope_types = list(st2) if st2 else None
+            tb = None if st2 == 'untouched' else st2
+            for has_sys, has_dom in scopes3:
+                creds = make_creds('dict', has_sys, has_dom,
+                                   not (has_sys or has_dom), 'system_scope',
+                                   'missing', 'r')
+                for which, rule, types in (('first', a, st), ('second', b, tb),
+                                           ('first', a, st)):
+                    acc.ev()
+                    got = outcome(enf, rule, dict(creds))
+                    want = ref(types, has_sys, has_dom, True, text != '!')
+                    acc.case('sequence', True)
+                    if got != want:
+                        acc.violation(
+                            'sequence|twin-objects|%s|got=%s' % (which, got),
+                            'two check objects parsed from %r, scope types %r '
+                            'and %r: the %s one gives %s for a %s token, '
+                            'expected %s' % (
+                                text, st, st2, which, got, 'system' if has_sys
+                                else 'domain' if has_dom else 'project', want),
+                            {'text': text, 'first': st, 'second': st2,
+                             'sys': has_sys, 'dom': has_dom}, want, got,
+                            'sequence')
+                    acc.outcome('twin-%s' % want)
     acc.sample('sequence', {'scope_types': st})
 
 
